@@ -368,6 +368,9 @@ func (world) RunCase(t *tape.Tape, st *super.Stats) *super.Violation {
 		mapCalls = 0
 		o := safeBuild(gr, s, mapFn)
 		inc("build:calls")
+		if super.Noting() {
+			super.Note(gr.name, fmt.Sprint(o.m != nil), fmt.Sprint(o.err), o.pval)
+		}
 		if o.panicked {
 			return &super.Violation{Class: "panic-escaped", Sig: "panic-escaped|build|" + o.pframe,
 				Detail: fmt.Sprintf("building a %s machine panicked: %s\n%s", gr.name, clip(o.pval, 300), caseDesc())}
@@ -556,6 +559,9 @@ func faultSite(tree *faulttree.Tree) string {
 
 // judgeRun applies the run oracle.
 func judgeRun(gname string, o runOut, tree *faulttree.Tree, caseDesc func() string, what string) *super.Violation {
+	if super.Noting() {
+		super.Note(gname, what, o.outcome(), tree.Trace())
+	}
 	desc := func() string {
 		return fmt.Sprintf("%s machine, %s\noutcome: %s\nrequest trace:\n%s%s", gname, what, clip(o.outcome(), 400), tree.Trace(), caseDesc())
 	}
